@@ -239,9 +239,10 @@ def main():
     for l in lines: print(l)
     print(f"{pid}: {len(goals)} obligations, {len(proved)} proved, {sum(len(v) for v in refuted.values())} refuted ({nknown} known findings), {len(und)} undecided; "
           f"{len(functions)} functions under contract; {ev['wall_s']} s")
+    native_viol = any(l.startswith('VIOLATION') and not l.rstrip().endswith('no-failing-input-found') for l in lines)
     if broken:
         for b in broken: print("BROKEN " + b)
-        sys.exit(3)
+        if not native_viol: sys.exit(3)          # a violation reproduced on the real code stands whatever happened to a verification unit
     if nviol: sys.exit(1)
     if undecided:
         for u in undecided: print(f"UNDECIDED property={pid} {u}")
